@@ -72,6 +72,7 @@ def _chunk(args):
             res["errors"].append((idx, err))
             continue
         res["digests"].append(out["digest"][:16])
+        res.setdefault("pairs", []).append((idx, out["digest"][:16]))
         if out.get("nontrivial"):
             res["nontrivial"].append(out["digest"][:16])
         for k, v in out.get("counters", {}).items():
@@ -188,6 +189,7 @@ def run_batch(prop, tier, seed):
     def merge(r):
         agg["n"] += r["n"]
         agg["digests"].update(r["digests"])
+        agg.setdefault("pairs", []).extend(r.get("pairs", ()))
         agg["nontrivial"].update(r["nontrivial"])
         for k, v in r["counters"].items():
             agg["counters"][k] = agg["counters"].get(k, 0) + v
@@ -324,6 +326,8 @@ def run_batch(prop, tier, seed):
             "distinct_run_digests": len(agg["digests"]),
             "distinct_memo_states": len(agg["states"]),
             "logical_time_events": agg["events"],
+            "runs_fingerprint": hashlib.sha256(repr(sorted(agg.get("pairs", []))).encode()).hexdigest()[:16],
+            "runs_fingerprint_note": "sha256 over the sorted (run index, run digest) pairs of the seeded part; equal for equal VERIF_SEED and run count whatever the worker count",
             "runs_per_hour": int(agg["n"] / max(wall, 1e-9) * 3600),
             "seeds_per_hour": int(agg["n"] / max(wall, 1e-9) * 3600),
             "seed_note": "every run index has its own sub-seed sha256(VERIF_SEED/property/run index/purpose); one run = one seed = one exactly repeatable execution",
